@@ -86,13 +86,15 @@ class G:
 # deterministic input valuations
 # ---------------------------------------------------------------------------------------------
 
-N_VALUATIONS = 3
+N_VALUATIONS = 4
 
 
 def _data(k, idx, shape, npdt):
     n = int(np.prod(shape)) if len(shape) else 1
     a = np.arange(n, dtype=np.float64) + 3 * idx
-    if k == 0:      # arange based, small, mixed sign
+    if k == 3:      # tiny magnitudes (low variance): additive constants such as epsilon dominate the result
+        v = (((a * 7) % 11 - 5) * 0.25 + 0.125) * 1e-3
+    elif k == 0:    # arange based, small, mixed sign
         v = ((a * 7) % 11 - 5) * 0.25 + 0.125
     elif k == 1:    # negatives
         v = -(((a * 5) % 7) + 1) * 0.375
@@ -104,12 +106,15 @@ def _data(k, idx, shape, npdt):
 def valuation(spec, k):
     """spec: list of (name, dtype, shape, role) -> feeds dict for valuation k (0..N_VALUATIONS-1)."""
     feeds = {}
+    k_data = k
+    if k == 3:
+        k = 0       # valuation 3 differs from valuation 0 only in the magnitude of the "data" inputs
     for idx, (name, dt, shape, role) in enumerate(spec):
         npdt = NP[dt]
         if isinstance(role, (tuple, list)) and role[0] == "fixed":
             feeds[name] = np.asarray(role[1], dtype=npdt).reshape(shape)
         elif role == "data":
-            feeds[name] = _data(k, idx, shape, npdt)
+            feeds[name] = _data(k_data, idx, shape, npdt)
         elif role == "scale":   # gamma-like: around 1, both signs in valuation 2
             feeds[name] = (1.0 + _data(k, idx, shape, np.float64) * (0.05 if k < 2 else 0.2)).astype(npdt)
         elif role == "small":   # weights: keep magnitudes small so products stay well-conditioned
